@@ -120,7 +120,7 @@ class Ctx:
             key = "%s@cfg-%s" % (key, self.variant)
         st = "inc" if inc else ("ok" if ok else "viol")
         if st == "viol" and ("<opaque ret:" in detail or "<opaque havoc:" in detail or "?ret:" in detail or "?havoc:" in detail
-                             or re.search(r"\?f~\d|\bopq_f_\d", detail)):
+                             or re.search(r"\?[A-Za-z_]+~\d|\bopq_[A-Za-z_0-9]+", detail)):
             # the differing value is the result of a call the library model does not cover: undecided, not wrong
             st = "inc"
         o = Ob(rule, key, fn, site, st, detail, d7, nontrivial, sample)
